@@ -233,8 +233,12 @@ func (fr *Frame) call(st *State, v ssa.Value, cc *ssa.CallCommon, in ssa.Instruc
 		if p, ok := cc.Value.(*ssa.Parameter); ok && fr.depth == 0 {
 			// a callback passed in by the caller: it may do anything to the heap (an input of the
 			// function, not an unknown of the analysis); its calls and its last result are logged
-			vc.note("%s: callback parameter %s: arbitrary effect on the heap, calls logged", fr.pos(in.Pos()), p.Name())
-			vc.havocAll(st)
+			if fr.contract != nil && fr.contract.PureCallbacks[p.Name()] {
+				vc.assume("callback parameter " + p.Name() + " has no effect on the heap (purecallback)")
+			} else {
+				vc.note("%s: callback parameter %s: arbitrary effect on the heap, calls logged", fr.pos(in.Pos()), p.Name())
+				vc.havocAll(st)
+			}
 			rs, err := freshResults(st, false)
 			if err != nil {
 				return fr.unsupportedErr(in, err)
@@ -331,6 +335,14 @@ func (fr *Frame) callSiteChecks(st *State, cc *ssa.CallCommon, args []Term, in s
 			sig = callee.Fn.(*ssa.Function).Signature
 		case *ssa.Builtin:
 			return
+		case *ssa.Parameter:
+			// a call through a function-typed parameter (a callback): addressed by the parameter's name
+			fs, ok := U(callee.Type()).(*types.Signature)
+			if !ok {
+				return
+			}
+			name = callee.Name()
+			sig = fs
 		default:
 			return
 		}
